@@ -19,6 +19,7 @@ import (
 	"net/http"
 	"os"
 	"strings"
+	"syscall"
 	"testing"
 	"time"
 
@@ -568,6 +569,59 @@ func TestC12Shutdown(t *testing.T) {
 			time.Sleep(30 * time.Millisecond) // let the handler start writing
 			nIdle++
 			ev.Label("c12:shutdown-with-unread-large-reply")
+		}
+		// a client that asks for the (large) equipment list and then does not read
+		// the answer: whatever the handler holds while it writes, it must not be
+		// something the rest of the server needs
+		if rapid.IntRange(0, 2).Draw(t, "stalledReader") == 0 {
+			for i := 0; i < 260; i++ {
+				a := ref.Auth{ShortID: uint32(5000 + i), PublicKey: keyFor(fmt.Sprintf("c12-many-%d", i)).Pub, Capacity: 9, Latitude: 1.5, Longitude: -2.5}
+				a.Sig = ref.Sign(s.gca, a.SigningBytes())
+				if st, _, err := s.S.Authorize(a); err != nil || st != 200 {
+					s.fail("authorization of device %d failed: %v %d", a.ShortID, err, st)
+				}
+			}
+			// small receive buffer and segment size, set BEFORE the connection is made,
+			// so that the reply cannot vanish into socket buffers
+			dialer := net.Dialer{Control: func(network, address string, rc syscall.RawConn) error {
+				return rc.Control(func(fd uintptr) {
+					syscall.SetsockoptInt(int(fd), syscall.SOL_SOCKET, syscall.SO_RCVBUF, 4096)
+					syscall.SetsockoptInt(int(fd), syscall.IPPROTO_TCP, syscall.TCP_MAXSEG, 1400)
+				})
+			}}
+			c, err := dialer.Dial("tcp", fmt.Sprintf("127.0.0.1:%d", s.S.HTTP))
+			if err != nil {
+				t.Fatal(err)
+			}
+			c.Write([]byte("GET /api/v1/equipment HTTP/1.1\r\nHost: x\r\n\r\n"))
+			conns = append(conns, c)
+			nHTTP++
+			time.Sleep(150 * time.Millisecond) // let the handler fill the socket buffers
+			done := make(chan string, 1)
+			go func() {
+				if st, _, err := s.S.Get("/api/v1/all-device-stats?timeslot_offset=0"); err != nil || st != 200 {
+					done <- fmt.Sprintf("GET all-device-stats: %v %d", err, st)
+					return
+				}
+				if !unread { // (with the huge order installed that device's reply cannot be framed)
+					if _, refused, err := s.S.SyncDevice(w.devs[0]); err != nil || refused {
+						done <- fmt.Sprintf("sync request: %v refused=%v", err, refused)
+						return
+					}
+				}
+				if err := s.S.SendUDP(ref.SignedReport(w.devKey[w.devs[0]], w.devs[0], s.now, 6).Encode()); err != nil {
+					done <- fmt.Sprintf("report: %v", err)
+					return
+				}
+				done <- ""
+			}()
+			if !world.WaitActive(6*time.Second, 5*time.Millisecond, func() bool { return len(done) > 0 }) {
+				s.fail("statistics / sync / report are not answered within 6 s of active time while a client sits on an unread equipment list")
+			}
+			if why := <-done; why != "" {
+				s.fail("while a client sits on an unread equipment list: %s", why)
+			}
+			ev.Label("c12:shutdown-with-stalled-reader-of-large-response")
 		}
 		stall := rapid.Bool().Draw(t, "stalledPeer")
 		var ln net.Listener
